@@ -3,7 +3,7 @@ import os
 
 from vf import catalog, e1, fsmon, gen
 from vf.catalog import MISSING
-from vf.session import ModelState, Session
+from vf.session import ModelState, Session, StopCase
 
 from . import common
 
@@ -84,6 +84,18 @@ def make_case(spec, i):
             pre += gen.gen_program(g, ms, 2, p_read=0.0, depth=2, handles=[0])
         pre.append({"reorder": 0})
         setup["pre"] = pre
+    elif spec["stratum"] == "existing" and info.buffered and x0 < 0.55:
+        # an earlier buffered block of the program modified the collection and its flush *failed* with an I/O error
+        # that was reported to the caller; the file still holds the old content. Nothing of that block may be
+        # written by the read-only program that follows (through the same handle or a fresh one).
+        import copy as _copy
+
+        snap = _copy.deepcopy(ms)
+        muts = gen.gen_program(g, snap, r.choice([1, 2]), p_read=0.0, depth=2, handles=[0])
+        setup["pre"] = [{"failed_flush": 0, "ctx": r.choice(["obj", "backend"]), "steps": muts}]
+        if r.random() < 0.6:
+            roots.append([nres, 0])
+            ms.add_root(nres, 0)
     elif r.random() < 0.4:
         roots.append([nres, 0])  # a second object on the first resource
         ms.add_root(nres, 0)
@@ -152,6 +164,35 @@ class ReadOnlySession(Session):
         finally:
             self.scratch = saved
 
+    def _failed_flush(self, st):
+        """Preparation: a buffered block whose exit flush fails with EIO at its first write-class event."""
+        from vf import inject, model
+
+        obj = self.objs[st["failed_flush"]]
+        before = [r.raw() for r in self.resources]
+
+        def block():
+            cm = obj.buffered if st["ctx"] == "obj" else self.cls.buffer_backend()
+            with cm:
+                for s_ in st["steps"]:
+                    node = self._navigate(s_["h"], s_.get("path", []))
+                    model.run_sut(node, s_["op"], [model.decode(a, self_obj=node, aux=self._aux_sut)
+                                                   for a in s_.get("args", [])])
+
+        icpt = inject.FaultAtEvent(1, kinds=("open_w", "os.rename", "os.remove"))
+        try:
+            inject.with_interceptor(self.scratch, icpt, block)
+            raised = False
+        except Exception:  # noqa: BLE001 - the failure is reported to the caller, as it should be
+            raised = True
+        self.counters["failed_flush_preparations"] = self.counters.get("failed_flush_preparations", 0) + 1
+        if icpt.fired is not None:
+            self.counters["failed_flush_faults_fired"] = self.counters.get("failed_flush_faults_fired", 0) + 1
+            if not raised:
+                self.counters["failed_flush_not_reported"] = self.counters.get("failed_flush_not_reported", 0) + 1
+        if [r.raw() for r in self.resources] != before:
+            raise StopCase()  # the block got something written after all: not the situation this case is about
+
     def run(self):
         json_backend = self.info.backend == "json"
         # ---- un-monitored preparation phase (may write)
@@ -162,6 +203,14 @@ class ReadOnlySession(Session):
             if "delete" in st:
                 self.resources[st["delete"]].remove()
                 self.model.truth[st["delete"]] = catalog.MISSING
+            elif "failed_flush" in st:
+                try:
+                    self._failed_flush(st)
+                except StopCase:
+                    self.counters["cases_stopped_early"] = self.counters.get("cases_stopped_early", 0) + 1
+                    self.unwind()
+                    self._restore_cfg()
+                    return
             elif "reorder" in st:
                 cur = self.resources[st["reorder"]].probe()
                 if cur not in (catalog.MISSING, catalog.UNPARSABLE):
